@@ -696,7 +696,13 @@ def compare_model(sc, exp, obs, d, model, out, record=False):
     m_exit, m_out, m_tb, m_served, m_store, m_refresh = res
     diffs = []
     r_exit = obs["rc"] == 0
-    if (m_exit == "1") != r_exit:
+    m_broken = m_exit == "0" and m_out == "" and m_tb == "0"
+    if m_broken:
+        # stdout was closed under the interpreter: the line is lost; the exit status depends on which later open()
+        # re-occupies descriptor 1 (120, 1 and 0 have been observed) and is not modelled
+        if obs["stdout"]:
+            diffs.append(f"broken: model says stdout is lost, real printed {obs['stdout'][:80]!r}")
+    elif (m_exit == "1") != r_exit:
         diffs.append(f"exit: model {m_exit} real rc {obs['rc']}")
     try:
         r_out = obs["stdout"].decode("utf-8", "surrogateescape")
@@ -704,7 +710,7 @@ def compare_model(sc, exp, obs, d, model, out, record=False):
         r_out = repr(obs["stdout"])
     if m_out != r_out:
         diffs.append(f"stdout: model {m_out[:200]!r} real {r_out[:200]!r}")
-    if (m_tb == "1") != (b"Traceback" in obs["stderr"]):
+    if not m_broken and (m_tb == "1") != (b"Traceback" in obs["stderr"]):
         diffs.append(f"traceback: model {m_tb}")
     # files of the cache directory
     cdir_rel = os.fsencode(os.path.join("xdg", CACHE_NAME))
